@@ -1,0 +1,309 @@
+//go:build verif
+
+// Contracts for the deductive verification in /verif (govc): TLS handshake message
+// decoders (properties C01, C30, C32). Comments only; compiled only with -tags verif.
+
+package tls
+
+//@ func readUint8LengthPrefixed
+//@   requires okS(s) && okOut(out, s)
+//@   ensures  result <==> (len(old(*s)) >= 1 && len(old(*s)) - 1 >= int(old((*s)[0])))
+//@   ensures  result ==> same(*out, old(*s)[1 : 1+int(old((*s)[0]))]) && same(*s, old(*s)[1+int(old((*s)[0])):])
+//@   ensures  !result ==> same(*out, old(*out))
+//@   modifies *s, *out
+//@   terminates
+
+//@ func (*endOfEarlyDataMsg).unmarshal
+//@   ensures  result <==> len(data) == 4
+//@   terminates
+
+//@ func readUint16LengthPrefixed
+//@   requires okS(s) && okOut(out, s)
+//@   ensures  result <==> (len(old(*s)) >= 2 && len(old(*s)) - 2 >= int(spec.be_val(seq(old(*s)), 2)))
+//@   ensures  result ==> same(*out, old(*s)[2 : 2+int(spec.be_val(seq(old(*s)), 2))]) && same(*s, old(*s)[2+int(spec.be_val(seq(old(*s)), 2)):])
+//@   ensures  !result ==> same(*out, old(*out))
+//@   modifies *s, *out
+//@   terminates
+
+//@ func readUint24LengthPrefixed
+//@   requires okS(s) && okOut(out, s)
+//@   ensures  result <==> (len(old(*s)) >= 3 && len(old(*s)) - 3 >= int(spec.be_val(seq(old(*s)), 3)))
+//@   ensures  result ==> same(*out, old(*s)[3 : 3+int(spec.be_val(seq(old(*s)), 3))]) && same(*s, old(*s)[3+int(spec.be_val(seq(old(*s)), 3)):])
+//@   ensures  !result ==> same(*out, old(*out))
+//@   modifies *s, *out
+//@   terminates
+
+//@ func readUint64
+//@   requires okS(s) && okOut(out, s)
+//@   ensures  result <==> len(old(*s)) >= 8
+//@   ensures  result ==> *out == spec.be64(seq(old(*s)), 8) && same(*s, old(*s)[8:])
+//@   ensures  !result ==> *out == old(*out)
+//@   modifies *s, *out
+//@   terminates
+
+//@ func (*serverHelloDoneMsg).unmarshal
+//@   ensures  result <==> len(data) == 4
+//@   terminates
+
+//@ func (*helloRequestMsg).unmarshal
+//@   ensures  result <==> len(data) == 4
+//@   terminates
+
+// RFC 8446 4.6.3: struct { KeyUpdateRequest request_update; } with values 0 and 1 only.
+//@ func (*keyUpdateMsg).unmarshal
+//@   requires m != nil && sep(m, data)
+//@   ensures  result <==> (len(data) == 5 && data[4] <= 1)
+//@   ensures  result ==> m.updateRequested == (data[4] == 1)
+//@   ensures  same(m.raw, data)
+//@   modifies m.raw, m.updateRequested
+//@   terminates
+
+//@ func (*serverKeyExchangeMsg).unmarshal
+//@   requires m != nil
+//@   ensures  result <==> len(data) >= 4
+//@   ensures  result ==> same(m.key, data[4:])
+//@   ensures  same(m.raw, data)
+//@   modifies m.raw, m.key
+//@   terminates
+
+// RFC 5246 7.4: Handshake.length is the length of the body.
+//@ func (*clientKeyExchangeMsg).unmarshal
+//@   requires m != nil
+//@   ensures  result <==> (len(data) >= 4 && len(data) - 4 == int(spec.be_val(seq(data[1:]), 3)))
+//@   ensures  result ==> same(m.ciphertext, data[4:])
+//@   ensures  same(m.raw, data)
+//@   modifies m.raw, m.ciphertext
+//@   terminates
+
+//@ func (*finishedMsg).unmarshal
+//@   requires m != nil && sep(m, data)
+//@   ensures  result <==> (len(data) >= 4 && len(data) - 4 == int(spec.be_val(seq(data[1:]), 3)))
+//@   ensures  result ==> same(m.verifyData, data[4:])
+//@   ensures  same(m.raw, data)
+//@   modifies m.raw, m.verifyData
+//@   terminates
+
+// RFC 5246 7.4.4: struct { ClientCertificateType certificate_types<1..2^8-1>;
+//   [SignatureAndHashAlgorithm supported_signature_algorithms<2..2^16-2>;]  (TLS 1.2, m.hasSignatureAlgorithm)
+//   DistinguishedName certificate_authorities<0..2^16-1>; }
+//@ pred crT(data) = int(data[4])
+//@ pred crSL(data) = int(spec.be_val(seq(data[5+crT(data):]), 2))
+//@ func (*certificateRequestMsg).unmarshal
+//@   requires m != nil && sep(m, data)
+//@   loop 1 invariant len(data) >= 2*(int(numSigAlgos) - it)
+//@   loop 1 invariant same(data, old(data)[7+crT(old(data))+2*it:])
+//@   loop 2 invariant same(m.raw, old(data)) && sep(m.certificateAuthorities, m)
+//@   loop 2 invariant 0 <= len(cas) && len(cas) <= int(casLength) && 2*len(m.certificateAuthorities) <= int(casLength) - len(cas) && int(casLength) <= len(old(data))
+//@   loop 2 decreases len(cas)
+//@   ensures  [min] result ==> len(data) >= 8 && crT(data) >= 1
+//@   ensures  [exact_tls10] result && !old(m.hasSignatureAlgorithm) ==> len(data) == 7 + crT(data) + crSL(data)
+//@   ensures  [exact_tls12] result && old(m.hasSignatureAlgorithm) ==> crSL(data) % 2 == 0 && len(data) == 9 + crT(data) + crSL(data) + int(spec.be_val(seq(data[7+crT(data)+crSL(data):]), 2))
+//@   ensures  [hdr] result ==> len(data) - 4 == int(spec.be_val(seq(data[1:]), 3))
+//@   ensures  [raw] result ==> same(m.raw, data)
+//@   alloc <= len(data)
+//@   modifies all
+//@   terminates
+
+// RFC 6066 8: struct { CertificateStatusType status_type = ocsp(1); opaque OCSPResponse<1..2^24-1>; }
+//@ func (*certificateStatusMsg).unmarshal
+//@   requires m != nil && sep(m, data)
+//@   ensures  result <==> (len(data) > 8 && data[4] == 1 && len(data) - 8 == int(spec.be_val(seq(data[5:]), 3)))
+//@   ensures  result ==> same(m.response, data[8:])
+//@   ensures  same(m.raw, data)
+//@   modifies m.raw, m.response
+//@   terminates
+
+// RFC 5246 7.4.8 / RFC 4346 7.4.8: [SignatureAndHashAlgorithm algorithm;] opaque signature<0..2^16-1>
+//@ pred cvOff(m) = ite(old(m.hasSignatureAlgorithm), 6, 4)
+//@ func (*certificateVerifyMsg).unmarshal
+//@   requires m != nil && sep(m, data)
+//@   ensures  result <==> (len(data) >= cvOff(m) + 2 && len(data) - cvOff(m) - 2 == int(spec.be_val(seq(data[cvOff(m):]), 2)))
+//@   ensures  result ==> same(m.signature, data[cvOff(m)+2:])
+//@   ensures  result && old(m.hasSignatureAlgorithm) ==> uint16(m.signatureAlgorithm) == uint16(data[4])<<8 | uint16(data[5])
+//@   ensures  !old(m.hasSignatureAlgorithm) ==> m.signatureAlgorithm == old(m.signatureAlgorithm)
+//@   ensures  same(m.raw, data) && m.hasSignatureAlgorithm == old(m.hasSignatureAlgorithm)
+//@   modifies m.raw, m.signatureAlgorithm, m.signature
+//@   terminates
+
+// RFC 5077 3.3: struct { uint32 ticket_lifetime_hint; opaque ticket<0..2^16-1>; }
+//@ func (*newSessionTicketMsg).unmarshal
+//@   requires m != nil
+//@   ensures  result <==> (len(data) >= 10 && len(data) - 4 == int(spec.be_val(seq(data[1:]), 3)) && len(data) - 10 == int(spec.be_val(seq(data[8:]), 2)))
+//@   ensures  result ==> same(m.ticket, data[10:]) && m.lifetimeHint == spec.be_val(seq(data[4:]), 4)
+//@   ensures  same(m.raw, data)
+//@   modifies m.raw, m.ticket, m.lifetimeHint
+//@   terminates
+
+// RFC 5246 7.4.2: opaque ASN.1Cert<1..2^24-1>; struct { ASN.1Cert certificate_list<0..2^24-1>; }
+// spec.tm_v24_pos(list, k) = offset after k entries, spec.tm_v24_ok(list, k, n) = the first k
+// entries lie inside n bytes (see /verif/specs/tlsmsgs.smt2). The second loop re-reads the
+// lengths validated by the first one; its panic-freedom rests on tm_v24_ok.
+//@ pred cmN(data) = len(data) - 7
+//@ pred cmPos(data, k) = spec.tm_v24_pos(seq(data[7:]), k)
+//@ func (*certificateMsg).unmarshal
+//@   requires m != nil && sep(m, data)
+//@   loop 1 invariant 0 <= numCerts && numCerts <= cmPos(data, numCerts) && cmPos(data, numCerts) <= cmN(data)
+//@   loop 1 invariant same(d, data[7+cmPos(data, numCerts):])
+//@   loop 1 invariant spec.tm_v24_ok(seq(data[7:]), numCerts, cmN(data))
+//@   loop 1 invariant uint32(len(d)) == certsLen
+//@   loop 1 decreases len(d)
+//@   loop 2 invariant len(m.certificates) == numCerts && fresh(m.certificates) && same(m.raw, data)
+//@   loop 2 invariant 0 <= cmPos(data, i) && cmPos(data, i) <= cmN(data) && same(d, data[7+cmPos(data, i):])
+//@   loop 2 invariant forall(j, 0, i, same(m.certificates[j], data[10+cmPos(data, j) : 7+cmPos(data, j+1)]))
+//@   ensures  [exact] result ==> len(data) >= 7 && uint32(len(data)) == spec.be_val(seq(data[4:]), 3) + 7
+//@   ensures  [walk] result ==> spec.tm_v24_ok(seq(data[7:]), len(m.certificates), cmN(data)) && uint32(cmN(data) - cmPos(data, len(m.certificates))) == 0
+//@   ensures  [raw] result ==> same(m.raw, data)
+//@   ensures  [elems] result ==> forall(j, 0, len(m.certificates), same(m.certificates[j], data[10+cmPos(data, j) : 7+cmPos(data, j+1)]))
+//@   alloc <= len(data)
+//@   modifies all
+//@   terminates
+
+// RFC 8446 4.3.1: struct { Extension extensions<0..2^16-1>; }
+//@ func (*encryptedExtensionsMsg).unmarshal
+//@   requires m != nil && sep(m, data)
+//@   loop 1 invariant samebase(extensions, data) && same(m.raw, data)
+//@   loop 1 decreases len(extensions)
+//@   ensures  [exact] result ==> len(data) >= 6 && len(data) == 6 + int(spec.be_val(seq(data[4:]), 2))
+//@   ensures  [raw] result ==> same(m.raw, data)
+//@   modifies all
+//@   terminates
+
+// RFC 8446 4.6.1: struct { uint32 ticket_lifetime; uint32 ticket_age_add; opaque ticket_nonce<0..255>;
+//                          opaque ticket<1..2^16-1>; Extension extensions<0..2^16-2>; }
+//@ pred nstN(data) = int(data[12])
+//@ pred nstL(data) = int(spec.be_val(seq(data[13+nstN(data):]), 2))
+//@ pred nstE(data) = int(spec.be_val(seq(data[15+nstN(data)+nstL(data):]), 2))
+//@ pred nstFields(m, data) = same(m.raw, data) && m.lifetime == spec.be_val(seq(data[4:]), 4) && m.ageAdd == spec.be_val(seq(data[8:]), 4) && same(m.nonce, data[13 : 13+nstN(data)]) && same(m.label, data[15+nstN(data) : 15+nstN(data)+nstL(data)])
+//@ func (*newSessionTicketMsgTLS13).unmarshal
+//@   requires m != nil && sep(m, data)
+//@   loop 1 invariant samebase(extensions, data) && nstFields(m, data)
+//@   loop 1 decreases len(extensions)
+//@   ensures  [exact] result ==> len(data) >= 17 && len(data) == 17 + nstN(data) + nstL(data) + nstE(data)
+//@   ensures  [fields] result ==> nstFields(m, data)
+//@   modifies all
+//@   terminates
+
+// RFC 8446 4.3.2: struct { opaque certificate_request_context<0..2^8-1> (empty here);
+//                          Extension extensions<2..2^16-1>; }
+// (No `terminates`: loop 1 contains loops 2-4, see notes.)
+//@ pred cr13Inv(m, data, extensions) = samebase(extensions, data) && same(m.raw, data) && sep(m.certificateAuthorities, m)
+//@ func (*certificateRequestMsgTLS13).unmarshal
+//@   requires m != nil && sep(m, data)
+//@   loop 1 invariant cr13Inv(m, data, extensions)
+//@   loop 2 invariant cr13Inv(m, data, extensions) && samebase(extData, data) && samebase(sigAndAlgs, data)
+//@   loop 2 decreases len(sigAndAlgs)
+//@   loop 3 invariant cr13Inv(m, data, extensions) && samebase(extData, data) && samebase(sigAndAlgs, data)
+//@   loop 3 decreases len(sigAndAlgs)
+//@   loop 4 invariant cr13Inv(m, data, extensions) && samebase(extData, data) && samebase(auths, data)
+//@   loop 4 decreases len(auths)
+//@   ensures  [exact] result ==> len(data) >= 7 && data[4] == 0 && len(data) == 7 + int(spec.be_val(seq(data[5:]), 2))
+//@   ensures  [raw] result ==> same(m.raw, data)
+//@   modifies all
+
+// RFC 8446 4.4.2: CertificateEntry certificate_list<0..2^24-1>: a uint24 length followed by
+// exactly that many bytes; on success exactly this vector is consumed from *s.
+// (No `terminates`, `modifies all`: see notes - loops 1 and 2 contain inner loops.)
+//@ pred ucL(x) = int(spec.be_val(seq(x), 3))
+//@ pred ucPos(cur, o, n) = same(cur, o[3+n:])
+//@ pred ucSep(c, s) = sep(c.Certificate, s) && sep(c.SignedCertificateTimestamps, s)
+//@ func unmarshalCertificate
+//@   requires okS(s) && okP(certificate, s) && ucSep(certificate, s)
+//@   loop 1 invariant ucSep(certificate, s) && samebase(certList, old(*s)) && ucPos(*s, old(*s), old(ucL(*s)))
+//@   loop 2 invariant ucSep(certificate, s) && samebase(certList, old(*s)) && samebase(extensions, old(*s)) && ucPos(*s, old(*s), old(ucL(*s)))
+//@   loop 3 invariant ucSep(certificate, s) && samebase(certList, old(*s)) && samebase(extensions, old(*s)) && samebase(extData, old(*s)) && samebase(sctList, old(*s)) && ucPos(*s, old(*s), old(ucL(*s)))
+//@   loop 3 decreases len(sctList)
+//@   ensures  [exact] result ==> len(old(*s)) >= 3 && len(old(*s)) - 3 >= old(ucL(*s)) && ucPos(*s, old(*s), old(ucL(*s)))
+//@   ensures  [short] !(len(old(*s)) >= 3 && len(old(*s)) - 3 >= old(ucL(*s))) ==> !result && same(*s, old(*s))
+//@   ensures  [pos] same(*s, old(*s)) || ucPos(*s, old(*s), old(ucL(*s)))
+//@   modifies all
+
+// RFC 8446 4.4.2: struct { opaque certificate_request_context<0..2^8-1> (empty here);
+// CertificateEntry certificate_list<0..2^24-1>; }
+//@ func (*certificateMsgTLS13).unmarshal
+//@   requires m != nil && sep(m, data)
+//@   ensures  [exact] result ==> len(data) >= 8 && old(data[4]) == 0 && len(data) == 8 + old(int(spec.be_val(seq(data[5:]), 3)))
+//@   modifies all
+
+// RFC 5246 7.4.1.2 / RFC 8446 4.1.2: struct { ProtocolVersion client_version; Random random (32 bytes);
+//   SessionID session_id<0..32>; CipherSuite cipher_suites<2..2^16-2>; CompressionMethod
+//   compression_methods<1..2^8-1>; [Extension extensions<0..2^16-1>;] }  - extensions are the optional tail.
+// (No `terminates`: loop 2 contains loops 3-11, see notes; loops 1, 3-11 are proved to terminate.)
+//@ pred chSid(data) = int(data[38])
+//@ pred chCs(data) = int(spec.be_val(seq(data[39+chSid(data):]), 2))
+//@ pred chCm(data) = int(data[41+chSid(data)+chCs(data)])
+//@ pred chEnd(data) = 42 + chSid(data) + chCs(data) + chCm(data)
+//@ pred chHead(m, data) = same(m.raw, data) && m.vers == uint16(spec.be_val(seq(data[4:]), 2)) && same(m.random, data[6:38]) && same(m.sessionId, data[39 : 39+chSid(data)])
+//@ pred chBody(m, data) = chHead(m, data) && same(m.compressionMethods, data[42+chSid(data)+chCs(data) : chEnd(data)]) && chCs(data) % 2 == 0
+//@ pred chSeps(m) = sep(m.supportedCurves, m) && sep(m.supportedSignatureAlgorithms, m) && sep(m.supportedSignatureAlgorithmsCert, m) && sep(m.supportedVersions, m) && sep(m.keyShares, m) && sep(m.pskIdentities, m) && sep(m.pskBinders, m)
+//@ pred chExt(data) = len(data) >= 2 + chEnd(data) && len(data) == 2 + chEnd(data) + int(spec.be_val(seq(data[chEnd(data):]), 2))
+//@ pred chInv(m, data, extensions) = samebase(extensions, data) && chBody(m, data) && chExt(data) && chSeps(m)
+//@ func (*clientHelloMsg).unmarshal
+//@   uses perreturn
+//@   requires m != nil && sep(m, data)
+//@   loop 1 invariant samebase(cipherSuites, data) && same(s, data[41+chSid(data)+chCs(data):]) && chHead(m, data) && sep(m.cipherSuites, m) && len(cipherSuites) % 2 == chCs(data) % 2 && len(data) >= 41 + chSid(data) + chCs(data)
+//@   loop 1 decreases len(cipherSuites)
+//@   loop 2 invariant chInv(m, data, extensions)
+//@   loop 3 invariant chInv(m, data, extensions) && samebase(extData, data) && samebase(nameList, data)
+//@   loop 3 decreases len(nameList)
+//@   loop 4 invariant chInv(m, data, extensions) && samebase(extData, data) && samebase(curves, data)
+//@   loop 4 decreases len(curves)
+//@   loop 5 invariant chInv(m, data, extensions) && samebase(extData, data) && samebase(sigAndAlgs, data)
+//@   loop 5 decreases len(sigAndAlgs)
+//@   loop 6 invariant chInv(m, data, extensions) && samebase(extData, data) && samebase(sigAndAlgs, data)
+//@   loop 6 decreases len(sigAndAlgs)
+//@   loop 7 invariant chInv(m, data, extensions) && samebase(extData, data) && samebase(protoList, data)
+//@   loop 7 decreases len(protoList)
+//@   loop 8 invariant chInv(m, data, extensions) && samebase(extData, data) && samebase(versList, data)
+//@   loop 8 decreases len(versList)
+//@   loop 9 invariant chInv(m, data, extensions) && samebase(extData, data) && samebase(clientShares, data)
+//@   loop 9 decreases len(clientShares)
+//@   loop 10 invariant chInv(m, data, extensions) && samebase(extData, data) && samebase(identities, data)
+//@   loop 10 decreases len(identities)
+//@   loop 11 invariant chInv(m, data, extensions) && samebase(extData, data) && samebase(binders, data)
+//@   loop 11 decreases len(binders)
+//@   ensures  [exact] result ==> len(data) >= chEnd(data) && (len(data) == chEnd(data) || chExt(data))
+//@   ensures  [fields] result ==> chBody(m, data)
+//@   modifies all
+
+// RFC 5246 7.4.1.3 / RFC 8446 4.1.3: struct { ProtocolVersion server_version; Random random (32 bytes);
+//   SessionID session_id<0..32>; CipherSuite cipher_suite; CompressionMethod compression_method;
+//   [Extension extensions<0..2^16-1>;] }   - the extensions block is the optional tail.
+// (No `terminates`: loop 1 contains loop 2, see notes; loop 2 is proved to terminate.)
+//@ pred shSid(data) = int(data[38])
+//@ pred shFields(m, data) = same(m.raw, data) && m.vers == uint16(spec.be_val(seq(data[4:]), 2)) && same(m.random, data[6:38]) && same(m.sessionId, data[39 : 39+shSid(data)]) && m.cipherSuite == uint16(spec.be_val(seq(data[39+shSid(data):]), 2)) && m.compressionMethod == data[41+shSid(data)]
+//@ pred shInv(m, data, extensions) = samebase(extensions, data) && shFields(m, data) && sep(m.scts, m) && sep(m.unknownExtensions, m)
+//@ func (*serverHelloMsg).unmarshal
+//@   uses perreturn
+//@   requires m != nil && sep(m, data)
+//@   loop 1 invariant shInv(m, data, extensions)
+//@   loop 2 invariant shInv(m, data, extensions) && samebase(extData, data) && samebase(sctList, data)
+//@   loop 2 decreases len(sctList)
+//@   ensures  [exact] result ==> len(data) >= 42 + shSid(data) && (len(data) == 42 + shSid(data) || (len(data) >= 44 + shSid(data) && len(data) == 44 + shSid(data) + int(spec.be_val(seq(data[42+shSid(data):]), 2))))
+//@   ensures  [fields] result ==> shFields(m, data)
+//@   modifies all
+
+// ---------------------------------------------------------------- ticket.go
+
+// struct { uint16 vers; uint16 cipherSuite; uint64 createdAt; opaque master_secret<1..2^16-1>;
+//          Certificate certificate_list<0..2^24-1>; }  (comment on type sessionState)
+// (modifies all: see notes, govc havocs the whole slice heap in these loops)
+//@ pred ssMS(data) = int(spec.be_val(seq(data[12:]), 2))
+//@ pred ssCL(data) = int(spec.be_val(seq(data[14+ssMS(data):]), 3))
+//@ func (*sessionState).unmarshal
+//@   requires m != nil && sep(m, data)
+//@   loop 1 invariant samebase(certList, data) && same(s, data[17+ssMS(data)+ssCL(data):]) && same(m.masterSecret, data[14 : 14+ssMS(data)])
+//@   loop 1 invariant 0 <= len(m.certificates) && 3*len(m.certificates) + len(certList) <= len(data)
+//@   loop 1 decreases len(certList)
+//@   ensures  [exact] result ==> len(data) >= 17 && ssMS(data) >= 1 && len(data) == 17 + ssMS(data) + ssCL(data)
+//@   ensures  [fields] result ==> m.vers == uint16(spec.be_val(seq(data), 2)) && m.cipherSuite == uint16(spec.be_val(seq(data[2:]), 2)) && m.createdAt == spec.be64(seq(data[4:]), 8) && same(m.masterSecret, data[14 : 14+ssMS(data)])
+//@   ensures  m.usedOldKey == old(m.usedOldKey)
+//@   alloc <= len(data)
+//@   modifies all
+//@   terminates
+
+// uint16 version = 0x0304; uint8 revision = 0; uint16 cipherSuite; uint64 createdAt;
+// opaque resumption_master_secret<1..2^8-1>; CertificateEntry certificate_list<0..2^24-1>
+//@ func (*sessionStateTLS13).unmarshal
+//@   requires m != nil && sep(m, data)
+//@   ensures  [exact] result ==> len(data) >= 18 && old(data[0]) == 3 && old(data[1]) == 4 && old(data[2]) == 0 && old(data[13]) >= 1 && len(data) == 17 + old(int(data[13])) + old(int(spec.be_val(seq(data[14+int(data[13]):]), 3)))
+//@   modifies all
